@@ -195,7 +195,7 @@ func runC20Recording(r *Run) {
 		return
 	}
 	g := newEnvGen(r)
-	g.noZero = true
+	g.noZero = !t.Chance(50, "allow-zero-rtt") // zero RTTs (also together with a drop) are samples like any other for the metrics
 	g.maxRTT = 1 << 50
 	m := 5 + t.Intn(60, "samples")
 	drops := 0
@@ -230,6 +230,9 @@ func runC20Recording(r *Run) {
 		s := g.next(a.Lim.EstimatedLimit())
 		if s.Start+s.RTT < 0 {
 			s.Start = 0
+		}
+		if !g.noZero && t.Chance(8, "drop-without-rtt") { // a timeout reported without a clock reading: still one rtt sample
+			s.Drop, s.RTT = true, 0
 		}
 		n1, n2, n3 := rttS.Len(), infS.Len(), drpS.Len()
 		if p := safeSample(a.Lim, s); p != nil {
